@@ -21,7 +21,7 @@ REAL = ["msdm.algorithms.search (AStarSearch, BreadthFirstSearch, unmodified)", 
 STUB = ["graph spec behind msdm's model interface", "random.Random streams (SimRandom)", "Dijkstra / BFS / cost-to-go reference"]
 ASSUMPTIONS = ["graphs of 1-8 states with integer costs 0..3 (returned as ints by half of the models; 3% with 2**53 added to the edges out of the source), (20% of runs) 15-60 states, 4-6 actions, costs 0..9, and (0.3% of runs) corridors of 1050-1400 states", "tie-break floats are pairwise distinct (a real generator repeats one with probability ~2^-53)"]
 
-REPS = ('next_state', 'det', 'dict', 'uniform', 'dsp', 'dict_ulp')
+REPS = ('next_state', 'det', 'dict', 'uniform', 'dsp', 'dict_ulp', 'parallel')
 HEUR = ('zero', 'exact', 'half', 'exact_inf')
 
 
